@@ -379,7 +379,7 @@ example : GoodGroup (cfgRebenchLog false)
 
 /-! ## numerals, PlainSecondsLog, `time -p` -/
 
-/-- "every numeral shape the documented grammar admits (integers, decimals, leading dot, exponents)":
+/-- "every numeral shape the documented grammar allows (integers, decimals, leading dot, exponents)":
 the text a pattern captures for a numeral has the numeral's value — `D+`, `D+.D*`, `.D+`, each with an
 optional `(e|E)[+-]?D+` -/
 theorem c05_numeral_value (n : Numeral) (h : n.Valid) : numeralVal n.render = n.value :=
